@@ -255,9 +255,92 @@ fn shrink_secs() -> u64 {
     std::env::var("VERIF_SHRINK_SECS").ok().and_then(|v| v.parse().ok()).unwrap_or(25)
 }
 
+// ------------------------------------------------------------------------------------------------
+// Journal: when the supervisor asks for it (VERIF_JOURNAL_DIR), every worker thread writes the
+// tape of the case it is about to run to its own small file first. The data reaches the kernel
+// before the case runs, so it survives an abort / stack overflow of this process and lets the
+// supervisor identify the culprit.
+
+static CURRENT_SUITE: std::sync::Mutex<String> = std::sync::Mutex::new(String::new());
+
+fn journal_dir() -> &'static Option<PathBuf> {
+    static D: std::sync::OnceLock<Option<PathBuf>> = std::sync::OnceLock::new();
+    D.get_or_init(|| std::env::var("VERIF_JOURNAL_DIR").ok().map(PathBuf::from))
+}
+
+thread_local! {
+    static JOURNAL_FILE: RefCell<Option<std::fs::File>> = RefCell::new(None);
+}
+
+fn journal_write(tape: &[u32]) {
+    use std::io::{Seek, SeekFrom, Write};
+    let dir = match journal_dir() {
+        Some(d) => d,
+        None => return,
+    };
+    JOURNAL_FILE.with(|jf| {
+        let mut jf = jf.borrow_mut();
+        if jf.is_none() {
+            static N: std::sync::atomic::AtomicUsize = std::sync::atomic::AtomicUsize::new(0);
+            let id = N.fetch_add(1, Ordering::SeqCst);
+            *jf = std::fs::File::create(dir.join(format!("worker-{}.bin", id))).ok();
+        }
+        if let Some(f) = jf.as_mut() {
+            let suite = CURRENT_SUITE.lock().map(|s| s.clone()).unwrap_or_default();
+            let mut buf: Vec<u8> = Vec::with_capacity(16 + suite.len() + tape.len() * 4);
+            buf.extend_from_slice(&(suite.len() as u32).to_le_bytes());
+            buf.extend_from_slice(suite.as_bytes());
+            buf.extend_from_slice(&(tape.len() as u32).to_le_bytes());
+            for w in tape {
+                buf.extend_from_slice(&w.to_le_bytes());
+            }
+            let _ = f.seek(SeekFrom::Start(0));
+            let _ = f.write_all(&buf);
+        }
+    });
+}
+
+/// Read back the journalled (suite, tape) pairs of a dead worker process.
+pub fn journal_read(dir: &std::path::Path) -> Vec<(String, Vec<u32>)> {
+    let mut out = Vec::new();
+    let mut files: Vec<_> = std::fs::read_dir(dir).map(|d| d.filter_map(|e| e.ok()).map(|e| e.path()).collect()).unwrap_or_default();
+    files.sort();
+    for p in files {
+        let b = match std::fs::read(&p) {
+            Ok(b) => b,
+            Err(_) => continue,
+        };
+        let rd = |i: usize| -> Option<u32> { b.get(i..i + 4).map(|x| u32::from_le_bytes([x[0], x[1], x[2], x[3]])) };
+        let sl = match rd(0) {
+            Some(v) => v as usize,
+            None => continue,
+        };
+        let suite = match b.get(4..4 + sl) {
+            Some(s) => String::from_utf8_lossy(s).to_string(),
+            None => continue,
+        };
+        let n = match rd(4 + sl) {
+            Some(v) => v as usize,
+            None => continue,
+        };
+        let mut tape = Vec::with_capacity(n);
+        for k in 0..n {
+            match rd(8 + sl + 4 * k) {
+                Some(w) => tape.push(w),
+                None => break,
+            }
+        }
+        if tape.len() == n {
+            out.push((suite, tape));
+        }
+    }
+    out
+}
+
 pub fn run_case(f: &(dyn Fn(&mut Gen) -> Verdict + Sync), tape: &[u32], want_desc: bool) -> (Verdict, Option<Value>) {
     let mut g = Gen::new(tape);
     g.want_desc = want_desc;
+    journal_write(tape);
     let watched = WATCH_ON.load(Ordering::Relaxed);
     if watched {
         watch_enter(tape);
@@ -289,6 +372,9 @@ pub fn tape_suite(
     tape_len: usize,
     f: &(dyn Fn(&mut Gen) -> Verdict + Sync),
 ) -> SuiteReport {
+    if let Ok(mut cs) = CURRENT_SUITE.lock() {
+        *cs = name.to_string();
+    }
     let threads = ctx.threads.min(cases.max(1) as usize).max(1);
     let per = cases / threads as u64;
     let extra = cases % threads as u64;
@@ -1041,23 +1127,28 @@ pub fn fuzz_campaign(ctx: &Ctx, plan: &FuzzPlan, replay: &dyn Fn(&[u8]) -> Verdi
             if name.starts_with("timeout-") || name.starts_with("oom-") || name.starts_with("slow-unit-") {
                 rep.notes.push(format!("libFuzzer saved {} ({} bytes): resource artifact, replayed below under the watchdog rules", name, data.len()));
             }
-            let v = match guard(|| replay(&data)) {
-                Ok(v) => v,
-                Err(p) => Verdict::fail(format!("harness panic during artifact replay: {}", p)),
+            // replay in a child process: an artifact may abort (stack overflow) as well as panic
+            let fl = Failure {
+                suite: rep.name.clone(),
+                msg: format!("libFuzzer artifact {}", name),
+                signature: None,
+                case: json!({"kind": "bytes", "hex": crate::bits::hex(&data)}),
+                description: None,
             };
-            match v {
-                Verdict::Fail { msg, signature } => {
+            let path = write_replay(ctx, &fl);
+            let verdict = child_replay(&path, plan.timeout_s * 2 + 30);
+            let _ = replay;
+            match verdict {
+                ChildVerdict::Holds => {
+                    let _ = std::fs::remove_file(&path);
+                    rep.notes.push(format!("artifact {} did not reproduce in a fresh process (not reported as a violation)", name));
+                }
+                ChildVerdict::Violation(text) | ChildVerdict::Died(text) | ChildVerdict::TimedOut(text) => {
                     if rep.failure.is_none() {
-                        rep.failure = Some(Failure {
-                            suite: rep.name.clone(),
-                            msg: format!("libFuzzer artifact {} reproduces in-process: {}", name, msg),
-                            signature,
-                            case: json!({"kind": "bytes", "hex": crate::bits::hex(&data)}),
-                            description: None,
-                        });
+                        rep.failure = Some(Failure { msg: format!("libFuzzer artifact {} reproduces in a fresh process: {}", name, text), ..fl });
                     }
                 }
-                _ => rep.notes.push(format!("artifact {} did not reproduce in-process (not reported as a violation)", name)),
+                ChildVerdict::Unknown(text) => rep.notes.push(format!("artifact {}: replay inconclusive ({})", name, text)),
             }
         }
     }
@@ -1070,4 +1161,129 @@ pub fn fuzz_campaign(ctx: &Ctx, plan: &FuzzPlan, replay: &dyn Fn(&[u8]) -> Verdi
     rep.extra.insert("fuzz_corpus_units".into(), json!(corpus_units));
     let _ = std::fs::remove_dir_all(&work);
     rep
+}
+
+// ------------------------------------------------------------------------------------------------
+// Replaying a case in a fresh process (used for fuzzer artifacts and by the crash supervisor)
+
+pub enum ChildVerdict {
+    Holds,
+    /// the child printed a VIOLATION line (exit 1); payload = its first lines
+    Violation(String),
+    /// the child was killed by a signal / aborted
+    Died(String),
+    TimedOut(String),
+    Unknown(String),
+}
+
+pub fn child_replay(path: &std::path::Path, timeout_s: u64) -> ChildVerdict {
+    let exe = match std::env::current_exe() {
+        Ok(e) => e,
+        Err(e) => return ChildVerdict::Unknown(format!("no executable path: {}", e)),
+    };
+    let out_path = path.with_extension("out");
+    let out_file = match std::fs::File::create(&out_path) {
+        Ok(f) => f,
+        Err(e) => return ChildVerdict::Unknown(format!("{}", e)),
+    };
+    let err_file = out_file.try_clone().ok();
+    let mut cmd = std::process::Command::new(exe);
+    cmd.arg("replay").arg(path).env_remove("VERIF_JOURNAL_DIR").stdout(out_file);
+    match err_file {
+        Some(f) => {
+            cmd.stderr(f);
+        }
+        None => {
+            cmd.stderr(std::process::Stdio::null());
+        }
+    }
+    let mut child = match cmd.spawn() {
+        Ok(c) => c,
+        Err(e) => return ChildVerdict::Unknown(format!("cannot spawn: {}", e)),
+    };
+    let t0 = Instant::now();
+    let status = loop {
+        match child.try_wait() {
+            Ok(Some(st)) => break Some(st),
+            Ok(None) => {
+                if t0.elapsed().as_secs() > timeout_s {
+                    let _ = child.kill();
+                    let _ = child.wait();
+                    break None;
+                }
+                std::thread::sleep(std::time::Duration::from_millis(50));
+            }
+            Err(_) => break None,
+        }
+    };
+    let text: String = std::fs::read_to_string(&out_path).unwrap_or_default().lines().take(6).collect::<Vec<_>>().join(" | ").chars().take(600).collect();
+    let _ = std::fs::remove_file(&out_path);
+    match status {
+        None => ChildVerdict::TimedOut(format!("still running after {} s", timeout_s)),
+        Some(st) => match st.code() {
+            Some(0) => ChildVerdict::Holds,
+            Some(1) => ChildVerdict::Violation(text),
+            Some(2) => ChildVerdict::Unknown(text),
+            Some(c) => ChildVerdict::Died(format!("process exited with status {} ({})", c, text)),
+            None => ChildVerdict::Died(format!("process killed by a signal: {:?} ({})", st, text)),
+        },
+    }
+}
+
+/// Supervisor: run the check in a worker process; if the worker dies abnormally (abort, stack
+/// overflow, kill), replay the journalled cases one by one in fresh processes to find the culprit.
+pub fn supervise(prop: &str, tier: Tier, seed: u64) -> i32 {
+    let ctx = Ctx::new(prop, tier, seed);
+    let jdir = ctx.root.join("harness").join("target").join("journal").join(format!("{}-{}", prop, std::process::id()));
+    let _ = std::fs::remove_dir_all(&jdir);
+    let _ = std::fs::create_dir_all(&jdir);
+    let exe = match std::env::current_exe() {
+        Ok(e) => e,
+        Err(_) => return crate::props::run(&ctx),
+    };
+    let status = std::process::Command::new(exe).arg("run-worker").arg(prop).arg("--tier").arg(tier.name()).env("VERIF_SEED", seed.to_string()).env("VERIF_JOURNAL_DIR", &jdir).status();
+    let code = match status {
+        Ok(st) => st.code(),
+        Err(e) => {
+            eprintln!("cannot start worker: {}", e);
+            let _ = std::fs::remove_dir_all(&jdir);
+            return 2;
+        }
+    };
+    if let Some(c @ 0..=2) = code {
+        let _ = std::fs::remove_dir_all(&jdir);
+        return c;
+    }
+    eprintln!("{}: worker process died abnormally ({:?}); replaying the journalled cases one by one", prop, status);
+    let cands = journal_read(&jdir);
+    let _ = std::fs::remove_dir_all(&jdir);
+    for (suite, tape) in cands {
+        let fl = Failure {
+            suite: suite.clone(),
+            msg: "the process running this case died (abort, stack overflow or kill)".into(),
+            signature: None,
+            case: json!({"kind": "tape", "tape": tape}),
+            description: None,
+        };
+        let path = write_replay(&ctx, &fl);
+        match child_replay(&path, 180) {
+            ChildVerdict::Holds | ChildVerdict::Unknown(_) => {
+                let _ = std::fs::remove_file(&path);
+            }
+            ChildVerdict::Violation(t) | ChildVerdict::Died(t) | ChildVerdict::TimedOut(t) => {
+                println!("--- {} / {}: a generated case kills the process that runs it (not a caught panic: abort, stack overflow, or no termination): {}", prop, suite, t);
+                println!("VIOLATION property={} replay={}", prop, path.display());
+                let ev = json!({
+                    "property_id": prop, "tier": tier.name(), "seed": seed, "level": "exploration",
+                    "coverage": {"evaluations": 1, "distinct_nontrivial": 2, "rule": "run ended by the death of the worker process; culprit identified from the journal and reproduced in a fresh process", "samples": [{"replay": path.display().to_string()}]},
+                    "wall_s": ctx.start.elapsed().as_secs_f64(), "violations": 1,
+                });
+                let _ = std::fs::create_dir_all(ctx.root.join("evidence"));
+                let _ = std::fs::write(ctx.root.join("evidence").join(format!("{}.json", prop)), serde_json::to_string_pretty(&ev).unwrap());
+                return 1;
+            }
+        }
+    }
+    eprintln!("{}: no journalled case reproduces the death of the worker: inconclusive", prop);
+    2
 }
